@@ -633,6 +633,13 @@ def guard_dominates(fn, write_stmt, value_names, marker_ok, par):
     return value_names <= seen
 
 
+def emitted_names(e):
+    """names whose value can be what is stored: the test of a conditional expression only selects, it is not emitted"""
+    if isinstance(e, ast.IfExp):
+        return emitted_names(e.body) | emitted_names(e.orelse)
+    return {n.id for n in ast.walk(e) if isinstance(n, ast.Name)}
+
+
 MINGUARD_CONTROL = '''
 def add(self, resolutions, dtype, mod, result):
     key = 'value'
@@ -664,7 +671,7 @@ def rule_min_guard(chk, idx):
         for s in own_walk(fn):
             if isinstance(s, ast.Assign) and len(s.targets) == 1 and isinstance(s.targets[0], ast.Subscript) \
                     and isinstance(s.targets[0].value, ast.Name) and s.targets[0].value.id == res:
-                names = {n.id for n in ast.walk(s.value) if isinstance(n, ast.Name)}
+                names = emitted_names(s.value)
                 on_mod = False
                 cur = s
                 while cur in par and cur is not fn:
@@ -1022,3 +1029,206 @@ _run_before_generic = run
 def run(chk):       # noqa: F811
     _run_before_generic(chk)
     _generic_rules(chk)
+
+
+# ---------------------------------------------------------------------------------------------------------------
+# C11.mod-table (lead): which boundary a before/after/since/until modifier emits.  The two emitters of BaseMergedParser are
+# small closed functions of (mod, start, end); they are tabulated by the whitelisting interpreter of c13 (no repository code
+# runs) over every modifier string combine_mod can build, with opaque non-empty start/end values, and the table is compared
+# (a) with the reference semantics shared by all platforms and (b) with the boundary keys the Specs corpus shows for each
+# Mod value in cases Python claims to support.  Equivalent re-formulations (nested if / conditional expression / elif
+# chains) tabulate identically and stay silent.
+
+MOD_OUTER = ['before', 'after', 'since', 'until']
+MOD_INNER = ['', 'start', 'mid', 'end', 'approx', 'more', 'less', 'ref_undef', 'start-approx', 'end-approx']
+
+
+def mod_domain():
+    out = [None, '']
+    for i in MOD_INNER:
+        if i:
+            out.append(i)
+    for o in MOD_OUTER:
+        for i in MOD_INNER:
+            out.append(o + ('-' + i if i else ''))
+    return out
+
+
+def ref_period(m):
+    """reference: 'before <period>' ends where the period starts unless its late part is meant; 'after <period>' starts where
+    it ends unless its early part is meant; 'since' starts at its start; no outer modifier: both boundaries.
+    None = not pinned (since-x / until-x on a period: platforms differ, Python marks those Specs NotSupported)"""
+    if not m:
+        return {'start': 'S', 'end': 'E'}
+    if m.startswith('before'):
+        return {'end': 'E' if m.endswith('end') else 'S'}
+    if m.startswith('after'):
+        return {'start': 'S' if m.endswith('start') else 'E'}
+    if m == 'since':
+        return {'start': 'S'}
+    if m.startswith('since') or m.startswith('until'):
+        return None
+    return {'start': 'S', 'end': 'E'}
+
+
+def ref_single(m):
+    if m and (m.startswith('before') or m.startswith('until')):
+        return {'end': 'V'}
+    if m and (m.startswith('after') or m.startswith('since')):
+        return {'start': 'V'}
+    return {'value': 'V'}
+
+
+def _mod_interp(idx, cls, evc):
+    from .c13 import MiniInterp
+
+    class ModInterp(MiniInterp):
+        def ev(self, n, env, depth):
+            if isinstance(n, ast.Attribute):
+                if isinstance(n.value, ast.Name) and n.value.id == 'self':
+                    if 'min_value' in n.attr:
+                        return '0001-01-01'
+                    self.fail(n, 'attribute of self: ' + n.attr)
+                v = evc(n)
+                if v is NOVAL:
+                    self.fail(n, 'constant ' + ast.unparse(n))
+                return v
+            if isinstance(n, ast.Subscript) and not isinstance(n.slice, ast.Slice):
+                base = self.ev(n.value, env, depth)
+                if isinstance(base, dict):
+                    k = self.ev(n.slice, env, depth)
+                    if k not in base:
+                        self.fail(n, 'missing key in ' + ast.unparse(n))
+                    return base[k]
+            if isinstance(n, ast.Call) and isinstance(n.func, ast.Attribute) and n.func.attr == 'get' and not n.keywords \
+                    and 1 <= len(n.args) <= 2:
+                base = self.ev(n.func.value, env, depth)
+                if isinstance(base, dict):
+                    args = [self.ev(a, env, depth) for a in n.args]
+                    return base.get(*args)
+            if isinstance(n, ast.Constant) and n.value is None:
+                return None
+            return MiniInterp.ev(self, n, env, depth)
+
+        def assign(self, tgt, val, env, depth):
+            if isinstance(tgt, ast.Subscript) and not isinstance(tgt.slice, ast.Slice):
+                base = self.ev(tgt.value, env, depth)
+                if isinstance(base, dict):
+                    base[self.ev(tgt.slice, env, depth)] = val
+                    return
+            return MiniInterp.assign(self, tgt, val, env, depth)
+
+    return ModInterp(idx, cls, 'BaseMergedParser')
+
+
+def specs_mod_keys():
+    """{Mod: {frozenset(boundary keys)}} over resolution values of range type in DateTimeModel Specs cases that are not marked
+    NotSupported / NotSupportedByDesign for Python (read as data; nothing is executed)"""
+    import glob
+    import json
+    import os
+    from ..core import REPO
+    out, files, cases_n = {}, 0, 0
+    for f in sorted(glob.glob(os.path.join(REPO, 'Specs', 'DateTime', '*', 'DateTimeModel*.json'))):
+        try:
+            cases = json.load(open(f, encoding='utf-8-sig'))
+        except (ValueError, OSError) as e:
+            raise AnalysisError('cannot read %s: %s' % (rel(f), e))
+        files += 1
+        for c in cases:
+            ns = (c.get('NotSupported') or '') + ',' + (c.get('NotSupportedByDesign') or '')
+            if 'python' in ns.lower():
+                continue
+            for r in c.get('Results') or []:
+                res = r.get('Resolution')
+                if not isinstance(res, dict):
+                    continue
+                for v in res.get('values') or []:
+                    if isinstance(v, dict) and v.get('Mod') and str(v.get('type', '')).endswith('range'):
+                        ks = frozenset(k for k in v if k in ('start', 'end', 'value'))
+                        if ks and 'value' not in ks:
+                            out.setdefault(v['Mod'], set()).add(ks)
+                            cases_n += 1
+    return out, files, cases_n
+
+
+MODTABLE_CONTROL = '''
+def add(self, resolutions, start_type, end_type, mod, result):
+    start = resolutions.get(start_type, None)
+    end = resolutions.get(end_type, None)
+    if mod:
+        if mod.startswith('before'):
+            result['end'] = end if mod.endswith('end') else start
+            return
+        if mod.startswith('after'):
+            result['start'] = start if mod.endswith('end') else end
+            return
+    result['start'] = start
+    result['end'] = end
+'''
+
+
+def rule_mod_table(chk, idx):
+    rid = 'C11.mod-table'
+    chk.rule(rid, 'the boundary emitted under a before/after/since/until modifier (key and which end of the period) follows the '
+                  'shared semantics and the keys the supported Specs show for that Mod', floor=60, control=True)
+    bm = idx.cls(PKG + '.base_merged.BaseMergedParser')
+    chk.consulted(bm.mod.path)
+    evc = make_evalc(idx, bm.mod, bm)
+    dom = mod_domain()
+
+    def tab_period(fn, m):
+        it = _mod_interp(idx, bm, evc)
+        result = {}
+        it.call(fn, [{'s': 'S', 'e': 'E'}, 's', 'e', m, result])
+        return result
+
+    def tab_single(fn, m):
+        it = _mod_interp(idx, bm, evc)
+        result = {}
+        it.call(fn, [{'t': 'V'}, 't', m, result])
+        return result
+
+    ctl = ast.parse(MODTABLE_CONTROL).body[0]
+    chk.control(rid, tab_period(ctl, 'after-start') != ref_period('after-start') and tab_period(ctl, 'before-end') == ref_period('before-end'))
+    fp = bm.methods.get('__add_period_to_resolution')
+    fs = bm.methods.get('__add_single_date_time_to_resolution')
+    if fp is None or fs is None:
+        raise AnalysisError('anchor vanished: BaseMergedParser.__add_period_to_resolution / __add_single_date_time_to_resolution')
+    table_p, table_s = {}, {}
+    show = lambda t: ', '.join('%s=%s' % kv for kv in sorted(t.items())) or 'nothing'
+    for m in dom:
+        tp, ts = tab_period(fp, m), tab_single(fs, m)
+        table_p[m], table_s[m] = tp, ts
+        rp, rs = ref_period(m), ref_single(m)
+        if rp is not None:
+            chk.judge(tp == rp, rid, bm.mod.path, 'BaseMergedParser.__add_period_to_resolution[mod=%r]' % m,
+                      'emits ' + show(rp),
+                      'for a period (S..E) under modifier %r the merger emits %s; the shared semantics are %s (before a period = '
+                      'before its start unless the late part is meant, after a period = after its end unless the early part is '
+                      'meant)' % (m, show(tp), show(rp)), fp.lineno)
+        chk.judge(ts == rs, rid, bm.mod.path, 'BaseMergedParser.__add_single_date_time_to_resolution[mod=%r]' % m,
+                  'emits ' + show(rs),
+                  'for a single value V under modifier %r the merger emits %s, expected %s' % (m, show(ts), show(rs)), fs.lineno)
+    specs, files, n = specs_mod_keys()
+    if files < 5 or n < 100:
+        raise AnalysisError('Specs/DateTime/*/DateTimeModel*.json: only %d files / %d modified range values found' % (files, n))
+    for m in sorted(specs):
+        if m not in table_p:
+            chk.observe('C11.mod-table: Specs Mod value %r is outside the tabulated domain' % m)
+            continue
+        have = {frozenset(table_p[m]), frozenset(table_s[m])}
+        for ks in sorted(specs[m], key=sorted):
+            chk.judge(ks in have, rid, bm.mod.path, 'Specs Mod %r -> keys {%s}' % (m, ','.join(sorted(ks))),
+                      'one of the emitters yields exactly these boundary keys',
+                      'Python-supported Specs cases with Mod %r carry the boundary keys {%s}; the merger emits {%s} (period) or '
+                      '{%s} (single value) for that modifier' % (m, ','.join(sorted(ks)), ','.join(sorted(table_p[m])),
+                                                                  ','.join(sorted(table_s[m]))), fp.lineno)
+
+
+_run_before_modtable = run
+
+
+def run(chk):       # noqa: F811
+    _run_before_modtable(chk)
+    rule_mod_table(chk, get_index())
